@@ -109,6 +109,11 @@ def render(name, s, e, nlook, prefix=None):
     mine = [t for t in out if t.ktraces[0].eventid == evs[len(pre)].eventid and t.ktraces[-1].timestamp == judged_end]
     if len(mine) != 1:
         return None, f'{len(mine)} traces for one START/END pair'
+    # records of this call that do not complete a START/END pair (a stray END, a START whose END was lost) are nobody's call
+    same = [t for t in out if t.ktraces[0].eventid == evs[len(pre)].eventid]
+    completed = 2 if prefix == 'other-thread-crossing' else 1
+    if len(same) != completed:
+        return None, f'{len(same)} traces of this call where {completed} START/END pair(s) completed'
     return E.stable_str(mine[0]), None
 
 
